@@ -111,6 +111,8 @@ instance (r e : Pt) : Decidable (IsEthAt r e) := by unfold IsEthAt; infer_instan
 /-- chip `c` lies on the board whose Ethernet chip is `e` (in the plane) -/
 def OnBoard (root e c : Pt) : Prop := IsEthAt root e ∧ InBoard (c.1 - e.1, c.2 - e.2)
 
+instance (root e c : Pt) : Decidable (OnBoard root e c) := by unfold OnBoard; infer_instance
+
 /-- the 48 board chips as a list (for bounded quantification) -/
 def boardChips : List Pt :=
   (List.range 8).flatMap fun (x : Nat) => (List.range 8).filterMap fun (y : Nat) =>
